@@ -17,7 +17,8 @@ RULE = ("Each case queues 1-5 memos to 1-2 destinations on a real sender (UDP Pe
         "decided by the tape: accept all, accept a prefix of k bytes, accept nothing (returns 0), EAGAIN / ENOBUFS (would block), or "
         "an unreachable-destination errno (ECONNREFUSED, ECONNRESET, ENETRESET, ENETUNREACH, EHOSTUNREACH, ENETDOWN, EHOSTDOWN, "
         "ETIMEDOUT; for the unix-domain peer ECONNREFUSED, ENOENT, and ENOMEM as a further would-block). The sender is serviced (serviceAllTx / serviceTxGramsOnce, seeded mix) while faults are on, then with faults off "
-        "for a bounded number of rounds. Oracle, evaluated on the kernel's own log of accepted bytes: every accepted chunk is the next "
+        "for a bounded number of rounds through one entry point per case (serviceAllTx, serviceTxGramsOnce or serviceTxGrams). Oracle: the gram "
+        "queue after serviceTxMemos is the queued memos' grams, memo by memo in queue order; evaluated on the kernel's own log of accepted bytes: every accepted chunk is the next "
         "unsent bytes of the gram at the head of the queue for its destination; grams complete in queue order; a gram is abandoned "
         "only in a call that reported an unreachable errno; after the drain every queued gram was sent in full or abandoned that way; "
         "service never raises. Non-trivial: >= 1 would-block on a gram of which nothing had been sent yet, >= 1 partial accept, and "
